@@ -231,6 +231,12 @@ def _pymod_pos_const(ctx, x, c, kbits):
     if mkbool(z3.Or(z3.fpIsNaN(x), z3.fpIsInf(x))):
         # Python: nan % c = nan ; inf % c raises? (fmod(inf, c) = nan)
         return z3.fpNaN(D)
+    # common case: the operand is already reduced (0 <= x < c), e.g. an
+    # angle on the wire grid: then x % c == x and no quotient is needed
+    inrange = z3.And(z3.fpGEQ(x, fval(0.0)), z3.fpLT(x, fval(c)),
+                     z3.Not(z3.fpIsNegative(x)))
+    if ctx.check(z3.Not(inrange)) == z3.unsat:
+        return x
     a = z3.fpAbs(x)
     lim = float(2 ** (kbits - 2)) * c
     ctx.obligations.append(z3.fpLT(a, fval(lim)))
@@ -275,21 +281,42 @@ def pack_float(f, v, order='>'):
         bv = z3.fpToIEEEBV(v.e)
         n = 8
     else:
-        s = z3.fpFPToFP(RNE, v.e, S)
-        if mkbool(z3.And(z3.fpIsInf(s), z3.Not(z3.fpIsInf(v.e)))):
-            raise OverflowError('float too large to pack with f format')
+        ve = v.e
+        if z3.is_app(ve) and ve.decl().kind() == z3.Z3_OP_FPA_TO_FP and \
+                ve.num_args() == 2 and z3.is_fp(ve.arg(1)) and \
+                ve.arg(1).sort() == S:
+            # the value is the exact widening of a binary32 term: packing it
+            # gives that term back, and cannot overflow
+            s = ve.arg(1)
+        else:
+            s = z3.fpFPToFP(RNE, v.e, S)
+            if mkbool(z3.And(z3.fpIsInf(s), z3.Not(z3.fpIsInf(v.e)))):
+                raise OverflowError('float too large to pack with f format')
         bv = z3.fpToIEEEBV(s)
         n = 4
     items = [z3.Extract(8 * k + 7, 8 * k, bv) for k in reversed(range(n))]
     if order == '<':
         items.reverse()
-    return SBytes(items)
+    sb = SBytes(items)
+    # remember which FP term these exact byte terms encode: unpacking them
+    # again is then the identity syntactically (no FP reasoning needed for a
+    # plain write/read round trip).  Sound for non-NaN values.
+    if all(not isinstance(b, builtins.int) for b in sb.items):
+        key = (f, order, tuple(b.get_id() for b in sb.items))
+        back = v.e if f == 'd' else z3.fpFPToFP(RNE, s, D)
+        Ctx.cur.env.setdefault('fp_pack', {})[key] = (sb.items, back)
+    return sb
 
 
 def unpack_float(f, data, order='>'):
     n = 8 if f == 'd' else 4
     if len(data) != n:
         raise _struct.error('unpack requires a buffer of %d bytes' % n)
+    if all(not isinstance(b, builtins.int) for b in data.items):
+        key = (f, order, tuple(b.get_id() for b in data.items))
+        hit = Ctx.cur.env.get('fp_pack', {}).get(key)
+        if hit is not None:
+            return mkf(hit[1])
     items = list(data.items)
     if order == '<':
         items.reverse()
